@@ -35,3 +35,25 @@ func Yield(site string) {
 		(*h)(site)
 	}
 }
+
+var held atomic.Int64
+
+// Held adds d to the number of standard-library mutexes currently held by any
+// goroutine. Calls are inserted by the simulator's instrumentation of a scratch
+// copy; a simulator must not park a goroutine while the count is non-zero.
+func Held(d int) { held.Add(int64(d)) }
+
+// HeldCount returns the current count.
+func HeldCount() int64 { return held.Load() }
+
+// ResetHeld sets the count to zero (between simulated runs).
+func ResetHeld() { held.Store(0) }
+
+// HeldFn wraps a callback that is run while a standard-library mutex is held.
+func HeldFn(f func()) func() {
+	return func() {
+		held.Add(1)
+		defer held.Add(-1)
+		f()
+	}
+}
